@@ -247,6 +247,8 @@ pub enum Replacement {
     ConflictPenalty,
     /// Like `Same`, but every D(k) is replaced by DAlt(k) (dispute and penalty become invalid).
     ConflictDispute,
+    /// Disputes as in `Same`; P(1) is replaced by PAlt(1); every other penalty stays unconfirmed.
+    ConflictPenalty1,
 }
 
 pub struct SimChain {
@@ -551,8 +553,12 @@ impl SimChain {
                 (Replacement::ConflictPenalty, Some(TxName::P(k)))
                 | (Replacement::ConflictPenalty, Some(TxName::PLarge(k))) => build_tx(TxName::PAlt(k)),
                 (Replacement::ConflictDispute, Some(TxName::D(k))) => build_tx(TxName::DAlt(k)),
+                (Replacement::ConflictPenalty1, Some(TxName::P(1))) | (Replacement::ConflictPenalty1, Some(TxName::PLarge(1))) => build_tx(TxName::PAlt(1)),
                 _ => tx.clone(),
             }
+        };
+        let keep = |tx: &Transaction| -> bool {
+            how != Replacement::ConflictPenalty1 || !matches!(name_of(&tx.compute_txid()), Some(TxName::P(k)) | Some(TxName::PLarge(k)) if k != 1)
         };
         let mut plan: Vec<Vec<Transaction>> = vec![Vec::new(); depth as usize + 1];
         match how {
@@ -564,12 +570,12 @@ impl SimChain {
             }
             _ => {
                 for (i, blk) in old.iter().enumerate() {
-                    plan[i] = blk.iter().map(subst).collect();
+                    plan[i] = blk.iter().filter(|t| keep(t)).map(subst).collect();
                 }
             }
         }
         for txs in plan {
-            if how == Replacement::ConflictPenalty || how == Replacement::ConflictDispute {
+            if how == Replacement::ConflictPenalty || how == Replacement::ConflictDispute || how == Replacement::ConflictPenalty1 {
                 // The conflicting transaction wins: drop the originals it conflicts with first.
                 for tx in txs.iter() {
                     let ins: Vec<OutPoint> = tx.input.iter().map(|i| i.previous_output).collect();
